@@ -176,6 +176,7 @@ type GenSpec struct {
 	DupAt  int    `json:"dupat,omitempty"`  // position k > 0 whose _id repeats the one of position 0 (0 = none)
 	BadAt  int    `json:"badat,omitempty"`  // position k > 0 holding a malformed _id (0 = none)
 	Sparse int    `json:"sparse,omitempty"` // every Sparse-th document lacks the fields x and y (0 = none)
+	Hetero int    `json:"hetero,omitempty"` // every Hetero-th document holds a scalar in n and a top-level field a (0 = none)
 }
 
 // Docs materialises the batch.
@@ -206,6 +207,12 @@ func (g *GenSpec) Docs(idOf func(int) string) []Doc {
 			delete(d, "x")
 			delete(d, "y")
 		}
+		if g.Hetero > 0 && i%g.Hetero == 1 {
+			// a heterogeneous collection: n is a scalar here, and a top-level field is named like the
+			// leaf of the path n.a
+			d["n"] = []interface{}{int64(i), "s", nil}[i%3]
+			d["a"] = int64(i % 4)
+		}
 		if g.DupAt > 0 && k == g.DupAt {
 			d["_id"] = idOf(g.First)
 		}
@@ -231,6 +238,7 @@ type Op struct {
 	StopAt  int          `json:"stopat,omitempty"` // ForEach: consumer returns false at the StopAt-th call (0 = never)
 	Path    string       `json:"path,omitempty"`
 	Content string       `json:"content,omitempty"` // import file content when not produced by an export
+	Raw     []byte       `json:"raw,omitempty"`     // import file content as raw bytes (fuzz target; takes precedence)
 	Note    string       `json:"note,omitempty"`
 	Gen     *GenSpec     `json:"gen,omitempty"`     // kind "geninsert"
 	FaultAt int64        `json:"faultat,omitempty"` // > 0: the FaultAt-th fallible store call of this operation fails
@@ -262,9 +270,24 @@ type Outcome struct {
 	CbIds  []string `json:"cbids,omitempty"` // UpdateFunc / UpdateById: ids the callback received, in order
 	CbBad  string   `json:"cbbad,omitempty"` // callback saw an argument that differs from the pre-call document
 	CbDocs []Doc    `json:"cbdocs,omitempty"`
+	ArgBad string   `json:"argbad,omitempty"` // the call changed a document it was given (other than assigning a missing _id)
 }
 
 func (o *Outcome) IsErr() bool { return o.Err != "" }
 
 // Sentinel reports whether Err names one of clover's sentinel errors.
 func (o *Outcome) Sentinel() bool { return len(o.Err) > 3 && o.Err[:3] == "Err" }
+
+// Incr is the arithmetic of the "incr" updater on integers: x+n, except that a value of the
+// mixed numeric regime (|x| <= 2^53) is kept inside it by stepping the other way when x+n
+// would leave it - integers beyond 2^53 are only in the properties' domain among integers
+// and outside the key-order domain of indexes (C10), so an updater must not create them.
+func Incr(x, n int64) int64 {
+	const lim = int64(1) << 53
+	if x >= -lim && x <= lim && n >= -lim && n <= lim {
+		if r := x + n; r > lim || r < -lim {
+			return x - n
+		}
+	}
+	return x + n
+}
